@@ -47,6 +47,10 @@ func parsesFull(src string) error {
 	return err
 }
 
+// c07NoLongerMatches: misfit patterns whose "bad" file is no instance any more since an expression metavariable does not
+// stand for 'key: value' or for the '...' of a variadic parameter (fixes 0959322, 4dab963): the file stays as it is.
+var c07NoLongerMatches = map[string]bool{"variadic-type-as-plain-type": true, "key-value-outside-composite": true}
+
 var c07HostileHeaders = []string{
 	"/*\nCopyright notice. The code exported from this\npackage is covered by the licence\nimport (\nfunc init() {\n*/\n\n",
 	"// Copyright\n\n/*\nPackage p does things; see\npackage main\nfor more.\n*/\n",
@@ -210,6 +214,9 @@ func runC07(ctx *core.Ctx, idx int) *core.Result {
 					fail("unparseable-content-returned", fmt.Sprintf("Apply returned nil error and content that does not parse (%s): %v", f.name, err))
 				} else if f.bad && string(ar.Out) != f.src {
 					res.Ob("misfit-was-parseable-after-all", 1)
+				} else if f.bad && !c07NoLongerMatches[class] {
+					// the change matches this file; its result is either emitted (and parses) or reported
+					fail("unparseable-rewrite-silently-dropped", fmt.Sprintf("Apply returned the input of %s unchanged and no error although the change matches it", f.name))
 				}
 				if string(ar.Out) != f.src {
 					nontrivial = true
@@ -328,6 +335,10 @@ func runC07(ctx *core.Ctx, idx int) *core.Result {
 			}
 			_ = content
 			res.Ob("misfit-run-exit-0:"+class, 1)
+			if mode == "inplace" && string(b) == f.src && !c07NoLongerMatches[class] {
+				// the change matches this file; its result is either written (and parses) or reported
+				fail("unparseable-rewrite-silently-dropped", fmt.Sprintf("exit 0, empty diagnostics, and %s is unchanged although the change matches it", f.name))
+			}
 		} else {
 			res.Ob("misfit-rejected", 1)
 			if !strings.Contains(string(cr.Stderr), f.name) && !strings.Contains(string(cr.Stderr), "load patch") {
